@@ -539,14 +539,19 @@ func (u *unitCtx) edgeUnits(st *TState) (err error) {
 			}
 			x.specDepth--
 			cexBase := x.cexOf("in.swap", sw, st0, 1)
+			theMsg := x.msgVal(mt) // one arbitrary message, validated and then applied
+			var msgRef *Term
 			mkRecv := func(f *ssa.Function) Val {
 				rt := f.Params[0].Type()
 				if _, ok := rt.Underlying().(*types.Pointer); ok {
-					ref := x.alloc(st0, mt, TTrue)
-					x.store(st0, &Addr{Kind: addrObj, Base: ref, Obj: mt, FT: mt}, freshVal(x.c, "msg", mt))
-					return Val{T: rt, L: []Term{ref}}
+					if msgRef == nil {
+						ref := x.alloc(st0, mt, TTrue)
+						x.store(st0, &Addr{Kind: addrObj, Base: ref, Obj: mt, FT: mt}, theMsg)
+						msgRef = &ref
+					}
+					return Val{T: rt, L: []Term{*msgRef}}
 				}
-				return x.msgVal(mt)
+				return theMsg
 			}
 			x.topFrame = &frame{fn: app, vals: map[ssa.Value]Val{}}
 			pre := st0.clone()
